@@ -186,6 +186,11 @@ func ApproxEq(a, b float64) bool {
 	return d <= 1e-4*m
 }
 
+// Finite reports whether x is neither NaN nor an infinity. Under symgo a symbolic real is
+// always finite: the paths on which the real code produces Inf/NaN (a float division by
+// zero) leave the real-number model and are decided by running their solver model natively.
+func Finite(x float64) bool { return !math.IsNaN(x) && !math.IsInf(x, 0) }
+
 // RealEq is exact equality over the reals under symgo and the ApproxEq
 // tolerance natively (where float32 rounding applies).
 func RealEq(a, b float64) bool { return ApproxEq(a, b) }
